@@ -202,6 +202,16 @@ func ruleSignedRem(r *Run, pkgs []string, floor int) {
 					}
 				}
 				kind, _, isAxis := axisOf(base)
+				if !isAxis {
+					// a loop variable that starts at a coordinate (for v := minPt[2]; …; v++) is a coordinate
+					if phi, isPhi := base.(*ssa.Phi); isPhi {
+						for _, e := range phi.Edges {
+							if k2, _, ok2 := axisOf(stripConv(e)); ok2 && k2 != "bs" {
+								kind, isAxis = k2, true
+							}
+						}
+					}
+				}
 				if !isAxis || kind == "bs" {
 					continue
 				}
